@@ -216,6 +216,60 @@ P = {
 }
 
 
+# round three: decision tables and the machinery rules (decided, technique)
+DT = 'decision tables evaluated over a finite domain by the state-domain ' \
+     'interpreter (rules/dt.py)'
+X3 = {
+    'C01': ('the join verdict / induced state / route search tables give '
+            'the prescribed answer for every combination of counts 0..3 and '
+            'inbound states, the controllers turn start / resume / a '
+            'completed task into the prescribed commands, transaction() '
+            'commits exactly after a normal body and the post-commit queue '
+            'runs exactly what was queued after a normal return', DT),
+    'C02': ('publishing and routing use the inbound context refreshed from '
+            'all upstream tasks, the spec caches are keyed by (definition '
+            'id, updated_at) of one row / by execution id', None),
+    'C04': ('the join verdict, induced-state and route-search decision '
+            'tables (counts 0..3), the named-lock primitives (immediate '
+            'insert of a uniquely named row, deleted after the body), the '
+            'one-shot refresh acts for every unfinished workflow state', DT),
+    'C05': ('the upstream tasks are all recorded triggers, the inbound '
+            'context is refreshed before publish', None),
+    'C07': ('the tail of next indexes holds exactly the never-started '
+            'items, truth tables of the item predicates (started / in '
+            'flight / done / to re-run) over state x accepted, every '
+            'configured policy (concurrency) gets its hook, lock '
+            'primitives', DT),
+    'C08': ('the retry decision table over (count, attempt, state, '
+            'continue-on, break-on, join) with attempt + 1 persisted, every '
+            'configured policy gets its hooks', DT),
+    'C09': ('sub-workflow name resolution table (workbook-relative, then '
+            'global, in the caller\'s namespace), delegation to the root '
+            'environment under exactly {has a root}, the post-commit queue '
+            'that carries the hand-off', DT),
+    'C10': ('resume recomputes the commands of every completed unprocessed '
+            'task and restarts IDLE tasks, a join refresh that fires while '
+            'PAUSED still acts', DT),
+    'C12': ('a partial rerun selects exactly the completed, unaccepted '
+            'items', DT),
+    'C13': ('a job row written inside transaction() is committed exactly '
+            'when the body returned normally', None),
+    'C17': ('creation / validation decision tables of cron triggers '
+            '(first-time-only fires once, count > 1 needs a pattern, one '
+            'minute ahead), trust and input validation before the insert',
+            DT),
+    'C18': ('the ignored states are the configured option on every way '
+            'into the base query, thresholds come from a UTC clock', None),
+}
+NOT3 = {
+    'C01': 'termination of every run, equality of the final state/tasks/'
+           'output with the language semantics beyond the decision tables '
+           '(join counts above 3, graph shapes)',
+    'C04': 'join cardinalities above the evaluated domain (0..3), '
+           'overlapping transactions, reverse-workflow phantom reads',
+}
+
+
 def main():
     with open(os.path.join(HERE, 'properties.jsonl')) as fh:
         props = [json.loads(x) for x in fh if x.strip()]
@@ -224,6 +278,11 @@ def main():
         pid = p['id']
         mod = os.path.join(HERE, 'mstatic', 'rules', pid.lower() + '.py')
         decided, undecided, technique = P[pid]
+        if pid in X3:
+            decided += '; ' + X3[pid][0]
+            if X3[pid][1]:
+                technique += ' + ' + X3[pid][1]
+        undecided = NOT3.get(pid, undecided)
         n_re = len([t for t in effects.TABLE if pid in t[0]])
         n_ra = len([t for t in args.TABLE if pid in t[0]])
         if n_re:
@@ -298,7 +357,8 @@ def main():
             'asynchronous hop edges (post-commit queue, scheduler jobs, '
             'RPC, threads), per-function CFG with dominators, finite '
             'state-domain abstract interpreter folded from '
-            'workflow/states.py, query-shape and alias analyses',
+            'workflow/states.py (states, booleans, small integers), '
+            'decision-table evaluation, query-shape and alias analyses',
         }],
         'checks': checks,
         'notes': 'Static analysis only (see DESIGN.md). Exit 0 = all rule '
